@@ -131,7 +131,9 @@ PROPS.update({
                       "hands out the transaction's one handle, opened at position 0). BOUNDED: the NAK splitter and de-duplication of "
                       "process_pdu (iterator chain + HashSet, a stub in the Verus unit) is checked on the real code through the hook "
                       "verif_pending_requests: for every NAK list of <= 2 requests over a small offset range the queue holds exactly the requested bytes, "
-                      "split to the segment size, markers kept, no duplicates. NOT decided: send_metadata (iterator chain: names/size in the Metadata PDU), "
+                      "split to the segment size, markers kept, no duplicates. send_metadata (verified in place; only the construction of the TLV option list is a "
+                      "stub) hands the transport a Metadata PDU with the names, file size, checksum type and closure flag of the transaction's metadata record. "
+                      "NOT decided: the content of the option list (iterator chain), that the metadata record built by the daemon states the true file size, "
                       "that the EOF checksum is the file's checksum (get_checksum is a stub; the checksum routine itself is C14), that the initial state "
                       "built by new() satisfies first_pass_inv (0 == 0 by inspection; new() is outside the unit).",
         "level_note": VERUS_NOTE + "File I/O stubs vx_stream_position/vx_seek_start/vx_read_up_to/vx_file_len replace `<io call>.map_err(..)?` by declared rewrites; "
